@@ -66,7 +66,7 @@ func init() {
 					if !isCloserFn(f) {
 						continue
 					}
-					construct := ord.next("call " + f.Name())
+					construct := ord.next("call " + shortName(f))
 					if why, isBad := bad[ce]; isBad {
 						obs = append(obs, mkOb(c, rid, u, construct, ce, Violated, why, true))
 					} else {
